@@ -260,3 +260,8 @@ package massdb_v1
 // version (checked before anything else of the header is used)
 //@ func loadHashMap
 //@   assert-at call ParsePubKey only-a-file-with-the-native-code-and-this-version-is-loaded: lastresult("Equal") && lastresult("Uint64#1") == dbVersion
+
+// ---- C11: an opened db carries the identity recorded in its file (not the one asked for), so that the keeper's
+// comparison with the file name can refuse a renamed file
+//@ func OpenDB
+//@   assert-at return#-1 opened-db-carries-the-identity-recorded-in-its-file: unbox("*MassDBV1", result0).pubKey == hmB.HashMap.pk && unbox("*MassDBV1", result0).bl == hmB.HashMap.bl && result1 == nil
